@@ -10,7 +10,7 @@ natively against the library built from /repo's working tree: there the library 
 load_database (real files, real loader, real SQLite), and the loaded schema version must be the created one."""
 import sys, os
 sys.path.insert(0, os.path.dirname(os.path.abspath(__file__)))
-import common, crates_common, rel_common, c08
+import common, crates_common, rel_common, c08, c13
 from common import Check, run_jobs, TIER
 from lsx import driver
 HARNESS = {2: 'h_reopen_v2.cpp', 1: 'h_reopen_v1.cpp'}
@@ -44,14 +44,23 @@ def main():
                              assert_filter=r'C10', label=p['shape']))
     if os.environ.get('VERIF_GEN'): jobs = [j for j in jobs if str(j['params']['gen']) == os.environ['VERIF_GEN']]
     jobs.sort(key=lambda j: -j['params']['nsym'])
+    # create-or-load half: the real create_or_load_database / load_database over C13's abstract sqlite3 + stat() model, create_database recorded
+    lld = driver.compile_ir('h_detect.cpp'); driver.load_module(lld)
+    if not os.environ.get('VERIF_GEN'):
+        jobs.append(dict(harness='h_detect.cpp', ll=lld, entry='h_create_or_load', params={'nsym': 0}, models=['c13'], known=ck.known, must_reach=['col-called', 'col-none', 'col-exists', 'col-loaded'],
+                         eng_opts={'max_steps': 3000000, 'max_paths': 40000}, replay='none', max_bugs=12, assert_filter=r'C10', label='create-or-load'))
     res = run_jobs(jobs); ck.add_results(res)
-    crates_common.native_validate(ck, res)
+    crates_common.native_validate(ck, [r for r in res if r.job['harness'] != 'h_detect.cpp'])
+    ck.extra['create_or_load'] = ('real create_or_load_database + load_database + detect_schema over the abstract sqlite3 / stat() model of C13: every combination of directory / m.db / Database2/m.db existence, '
+        'every int32 version triple, 0..2 Information rows, requested schema and the initial values of both output parameters symbolic; create_database replaced by a recorder. Asserted: '
+        'created (flag set, creator called once, with the requested version, no file opened) exactly when no library exists; an existing library - also an unreadable or unsupported one - is never created over; '
+        'a loaded library reports created == false and its stored version; the known C13 finding (3.0.0 accepted) is assumed away')
     ck.extra['bounds'] = {'histories': 'prefix shapes of the membership harness (up to 3 crates and 3 tracks), then 1 symbolic operation of any of 11 kinds on any operand (also removed ones); '
                                        '2 symbolic operations from the small prefix; closing after the last operation',
                           'schemas': 'quick: newest and oldest version of each generation; thorough: every version',
                           'observation': 'per live crate (through its old handle / crate_by_id): id, name, parent, children, tracks; per live track: id, relative path, title, rating; database: crates(), root_crates(), tracks(), uuid, version name',
                           'outside': "SQLite's pager and journal (durability of a COMMIT), the files' location and the two attached files of 1.x, the loader itself (exercised only by the native replays of sampled paths, not decided by the solver), "
-                                     'create_or_load_database (its decision table is part of C13), closing at an inner prefix of the history, fields beyond title / rating'}
+                                     'what create_database writes (C11 / C17), create-or-load on a directory holding both layouts (not stated), closing at an inner prefix of the history, fields beyond title / rating'}
     ck.assumptions = ['lsx/models_rel.py stands for SQLite; one store per run stands for the library files; sqlite3_close rolls an open transaction back and keeps committed rows',
                       'the second connection is opened by constructing the library objects over the store (the symbolic run does not execute load_database; the native replays do)']
     ck.trusted = ['clang-14 lowering', 'lsx executor', 'lsx/models_rel.py', 'z3']
